@@ -6,6 +6,9 @@
 //! reference AST on every word of length <= 4 over a 4-byte sample alphabet.
 use std::{env, panic};
 
+mod c06;
+mod c07;
+
 use midnight_circuits::parsing::regex::{Regex, RegexInstructions};
 
 struct Rng(u64);
@@ -313,6 +316,8 @@ fn main() {
     let mut rng = Rng(seed ^ 0x9e37_79b9_7f4a_7c15);
     match mode {
         "c19_regex" => c19_regex(&mut rng, rounds),
+        "c06_foreign" => c06::run(&|k, case, got, want| report(k, case, got, want)),
+        "c07_poseidon_varlen" => c07::run(&|k, case, got, want| report(k, case, got, want)),
         _ => {
             eprintln!("unknown mode");
             std::process::exit(2)
